@@ -40,13 +40,22 @@ impl ProtoFmt for std::net::SocketAddr {
     }
 }
 
+/// Constructs a duration from its proto representation.
+/// `time::Duration::new` panics on the values which are out of range, so it cannot be used on
+/// untrusted input.
+fn duration_from_parts(seconds: i64, nanos: i32) -> anyhow::Result<time::Duration> {
+    time::Duration::seconds(seconds)
+        .checked_add(time::Duration::nanoseconds(nanos.into()))
+        .context("duration out of range")
+}
+
 impl ProtoFmt for time::Utc {
     type Proto = proto::std::Timestamp;
 
     fn read(r: &Self::Proto) -> anyhow::Result<Self> {
         let seconds = *required(&r.seconds).context("seconds")?;
         let nanos = *required(&r.nanos).context("nanos")?;
-        Ok(time::UNIX_EPOCH + time::Duration::new(seconds, nanos))
+        Ok(time::UNIX_EPOCH + duration_from_parts(seconds, nanos)?)
     }
 
     fn build(&self) -> Self::Proto {
@@ -64,7 +73,7 @@ impl ProtoFmt for time::Duration {
     fn read(r: &Self::Proto) -> anyhow::Result<Self> {
         let seconds = *required(&r.seconds).context("seconds")?;
         let nanos = *required(&r.nanos).context("nanos")?;
-        Ok(Self::new(seconds, nanos))
+        duration_from_parts(seconds, nanos)
     }
 
     fn build(&self) -> Self::Proto {
